@@ -91,20 +91,20 @@ def analyse(events, chain_of, abort):
 class AbortCase(Case):
     family = "events"
 
-    def __init__(self, cid, *, shape="single", who="observer", nevals=2, flags=False, maxf=None):
+    def __init__(self, cid, *, shape="single", who="observer", nevals=2, flags=False, maxf=None, rmin=1):
         """shape: single | two-steps | evaluator | nested-inner | nested-outer (where the abort is raised)"""
         self.id = cid
-        self.shape, self.who, self.nevals, self.flags, self.maxf = shape, who, nevals, flags, maxf
+        self.shape, self.who, self.nevals, self.flags, self.maxf, self.rmin = shape, who, nevals, flags, maxf, rmin
         self.family = f"events/{shape}/{who}"
         rng = np.random.default_rng([3, 1, 31])
         self.design = np.round(rng.uniform(-1, 1, (2, 1, 2)) * 64) / 64
-        self.cfg0 = ens.ensemble_config(N=2, R=2, P=1, rmin=1, x0=[0.25, -0.5],
+        self.cfg0 = ens.ensemble_config(N=2, R=2, P=1, rmin=rmin, x0=[0.25, -0.5],
                                         extra={"optimizer": {"method": "symstub/x", "max_functions": maxf}})
         self.cfg_inner = ens.ensemble_config(N=2, R=2, P=1, rmin=1, x0=[0.25, -0.5], mask=[False, True],
                                              extra={"optimizer": {"method": "symstub/x"}})
         # how many events / calls the aborting party sees in an undisturbed run (bound of the abort index)
         per_step = 2 + 2 * nevals
-        steps = {"single": 1, "two-steps": 2, "evaluator": 1, "nested-inner": 1, "nested-outer": 1}[shape]
+        steps = {"single": 1, "two-steps": 2, "evaluator": 1, "nested-inner": 1, "nested-outer": 1, "nested3": 1}[shape]
         if shape == "evaluator":
             self.nmax = 4 if who != "evaluator" else 1
         elif shape.startswith("nested"):
@@ -114,7 +114,7 @@ class AbortCase(Case):
             self.nmax = steps * per_step if who != "evaluator" else steps * nevals
 
     def describe(self):
-        return f"shape={self.shape} abort_by={self.who} evaluations_per_step={self.nevals} failures={self.flags} max_functions={self.maxf} abort_index<= {self.nmax}"
+        return f"shape={self.shape} abort_by={self.who} evaluations_per_step={self.nevals} failures={self.flags} rmin={self.rmin} max_functions={self.maxf} abort_index<= {self.nmax}"
 
     def inputs(self, env):
         inp = {"at": env.integer("abort_at", 0, self.nmax)}  # == nmax: no abort at all
@@ -171,6 +171,19 @@ class AbortCase(Case):
                 step = plan.add_step("evaluator")
                 sources[step] = ["h", "observer"]
                 out["codes"].append(plan.run_step(step, config=cfg, variables=env.const(pts[0])))
+            elif self.shape == "nested3":
+                # three levels: the middle plan has no handlers of its own; events of the innermost step must
+                # still reach the handlers of the outermost plan, then the observers
+                middle, _ = make_plan(ev, rec, parent=plan, handler_names=())
+                inner, _ = make_plan(ev, rec, parent=middle, handler_names=("hi",))
+                inner_plans.append(inner)
+                istep = inner.add_step("evaluator")
+                sources[istep] = ["hi", "h", "observer"]
+                out["codes"].append(inner.run_step(istep, config=cfg, variables=env.const(pts[0])))
+                step = plan.add_step("evaluator")
+                sources[step] = ["h", "observer"]
+                if not inner.aborted:
+                    out["codes"].append(plan.run_step(step, config=cfg, variables=env.const(pts[1])))
             else:
                 inner, _ = make_plan(ev, rec, parent=plan, handler_names=("hi",))
                 inner_plans.append(inner)
@@ -227,7 +240,11 @@ class AbortCase(Case):
             props.append((k, SB(bool(v))))
         if raised is not None:
             props.append(("abort_reports_USER_ABORT", SB(bool(o["codes"]) and o["codes"][-1] == X.USER_ABORT)))
-            props.append(("plan_is_marked_aborted", SB(bool(o["plan_aborted"]) and all(o["inner_aborted"][:1] if self.shape == "nested-inner" else [True]))))
+            if self.shape == "nested3":   # the plan whose step was running is the one that latches
+                marked = bool(o["inner_aborted"][0]) if o["at"] == 0 else bool(o["plan_aborted"])
+            else:
+                marked = bool(o["plan_aborted"]) and all(o["inner_aborted"][:1] if self.shape == "nested-inner" else [True])
+            props.append(("plan_is_marked_aborted", SB(marked)))
             props.append(("further_steps_refuse_to_run", SB(o.get("refused_after", True) is True)))
             if self.shape == "two-steps" and len(o["codes"]) == 1:
                 props.append(("second_step_refused_after_abort_in_first", SB(o["refused"] == 1)))
@@ -314,6 +331,9 @@ def build_cases(tier):
     add(shape="single", who="observer", flags=True)
     add(shape="single", who="handler", maxf=1)
     add(shape="evaluator", who="evaluator")
+    add(shape="nested3", who="evaluator")
+    add(shape="single", who="observer", flags=True, rmin=0)       # every realization may fail with realization_min_success = 0
+    add(shape="single", who="evaluator", flags=True, rmin=0, nevals=3)
     for who in ("observer", "handler", "inner-handler", "evaluator"):
         add(shape="nested-inner" if who in ("inner-handler",) else "nested-outer", who=who)
     add(BasicOptimizerCase)
